@@ -513,3 +513,37 @@ MANIFEST_TEXT["C13"] = {
              "repetition at the end of the session."),
     "note": "Trusted: CPython, os.fork semantics, the snapshot function in pvm/probes.py.",
 }
+
+META["C05"] = {
+    "level": "fault_enumeration",
+    "rule": ("executions of the real generic IoContract.compose / quotient / merge with a symbolic TermList whose "
+             "primitives follow an outcome script. Enumerated: every assignment of roles (absent / input / output in "
+             "each contract) to 1 and 2 variables x 3 content shapes x 3 operations x {no option, keep / additional "
+             "input = each variable}; for each, depth-first over the observed primitive-call sequence: every script "
+             "with at most 2 non-ideal outcomes (quick) or every script (thorough) out of refine {full-max, full-own, "
+             "leftover, ValueError (+ empty-support, partial)}, relax {full-max, full-own, drop, leftover, "
+             "ValueError (+ empty-support)}, simplify {same, drop-first, ValueError (+ drop-last)}, refines "
+             "{True, False}; plus a seeded sample of 3-variable topologies. For every returned contract the C01 / "
+             "C02 / C08 obligation must be a propositional consequence of the axioms granted by the primitive "
+             "specifications (z3). Non-trivial = at least one primitive call was consumed or a contract returned; "
+             "distinct = (topology, script) digests."),
+    "required": ["scripts", "topologies:2-var", "topologies:3-var", "obligations-checked:compose",
+                 "obligations-checked:quotient", "obligations-checked:merge", "runs:compose:IncompatibleArgsError",
+                 "runs:quotient:IncompatibleArgsError", "consumed:refine:leftover", "consumed:refine:verr",
+                 "consumed:relax:drop", "consumed:relax:verr", "consumed:relax:leftover", "consumed:simplify:drop-first",
+                 "consumed:simplify:verr", "consumed:refines:true", "consumed:refines:false"],
+    "assumptions": [TB, "atoms are uninterpreted predicates; the axioms are exactly the documented specifications of "
+                    "the abstract TermList primitives", "operand contracts are built without simplification so that "
+                    "every scripted call belongs to the operation under test"],
+    "exhaustive": False,
+    "exhaustive_note": ("thorough tier: all outcome scripts for all 1- and 2-variable topologies are enumerated "
+                        "completely (lazy depth-first over the observed call sequence)"),
+    "soft_s": {"quick": 240, "thorough": 3300},
+}
+MANIFEST_TEXT["C05"] = {
+    "technique": RM + "the real generic IoContract executed against a scripted symbolic TermList (fault enumeration over primitive outcomes and interface topologies); recorded axiom trace checked propositionally with z3",
+    "text": ("Fault enumeration: the primitives of the constraint domain are replaced by an environment that "
+             "enumerates their possible outcomes (including failures); every result the real algebra code returns "
+             "must satisfy its obligation as a consequence of what the primitives' specifications grant."),
+    "note": "Trusted: CPython, z3 (propositional), the 120-line symbolic TermList in pvm/checks/c05.py.",
+}
